@@ -117,6 +117,56 @@ fn play_long(turns: u64, seed: u64) -> Result<(GameState, GameState, GameState, 
     Ok((g, mid, twin, info))
 }
 
+/// A few plain turns (one or more non-capturing steps of non-rabbit pieces, then a pass), then three steps and the
+/// step-3 queries (the repetition filter for fourth steps, has_move, result).
+fn advance_and_query_step3(mut g: GameState, turns: u32) -> (GameState, u32) {
+    let mut queries = 0u32;
+    let plain = |g: &GameState| -> Option<Action> {
+        let acts = g.valid_actions();
+        acts.iter().find(|a| matches!(a, Action::Move(s, _) if g.piece_board().piece_type_at_square(s).map_or(false, |p| p != Piece::Rabbit) && g.trapped_animal_for_action(a).is_none())).copied()
+    };
+    for t in 0..=turns {
+        let steps = if t == turns { 3 } else { 1 + (t % 2) };
+        for _ in 0..steps {
+            match plain(&g) {
+                Some(a) => g = g.take_action(&a),
+                None => break,
+            }
+        }
+        if g.current_step() == 3 {
+            let _ = (g.valid_actions().len(), g.valid_actions_no_rep().len(), g.is_terminal(), g.has_move(g.piece_board()), g.can_pass(true));
+            queries += 1;
+        }
+        if g.current_step() > 0 {
+            let acts = g.valid_actions();
+            if acts.contains(&Action::Pass) {
+                g = g.take_action(&Action::Pass);
+            } else if let Some(a) = acts.first() {
+                g = g.take_action(a);
+            } else {
+                break;
+            }
+        }
+    }
+    (g, queries)
+}
+
+/// A second, short game on the same thread after everything of the long one has been discarded: whatever the
+/// engine still remembers of the long history on this thread is replaced now.
+fn second_game(turns: u32) -> u32 {
+    let mut g = inject(&gen::long_game_position(), false, 2);
+    let mut q = 0;
+    for _ in 0..turns / 8 {
+        let (ng, n) = advance_and_query_step3(g, 7);
+        g = ng;
+        q += n;
+        if g.is_terminal().is_some() {
+            break;
+        }
+    }
+    q
+}
+
 /// The operations the property names: query, clone, drop.
 /// Every query on one state, plus comparison / hashing against an equal state with a separately built history.
 fn probe(cur: &GameState, twin: &GameState) -> u32 {
@@ -282,7 +332,12 @@ fn exercise(g: GameState, mid: GameState, twin: GameState, unwind: bool) -> Valu
             cur2 = cur2.take_action(&pick);
         }
     }
+    // the twin's line continued by 1..8 turns of its own (a history that does not descend from g's, a few
+    // entries longer), queried at step 3 right after g's line was
     let twin_hist = twin.unwrap_play_phase().hash_history().len();
+    let (twin_later, later_queries) = advance_and_query_step3(twin.clone(), 1 + (twin_hist % 8) as u32);
+    let twin_later_hist = twin_later.unwrap_play_phase().hash_history().len();
+    drop(twin_later);
     drop(twin); // last owner of the second long list
     let c = g.clone();
     drop(c);
@@ -350,7 +405,7 @@ fn exercise(g: GameState, mid: GameState, twin: GameState, unwind: bool) -> Valu
         drop(mid);
     }
     let after = vmstk_kb();
-    json!({"vmstk_before_kb": before, "vmstk_mid_kb": mid_vm, "vmstk_after_newer_half_kb": after_newer, "vmstk_after_kb": after, "valid_actions": n_actions, "valid_actions_no_rep": n_norep, "terminal": term, "can_pass": cp, "has_move": hm, "printed_len": text_len, "hash": format!("{:#018x}", hash), "eq_mid": eq, "history_len": hl, "history_iter_count": hcount, "history_head": hhead.map(|h| format!("{:#018x}", h)), "tail_len": tail_len, "tail_iter_count": tail_iter_count, "tail_chain_len": tail_chain_len, "iterator_dropped_after": partial_iter, "mid_turn_query_rounds": mid_turn_queries, "pending_push_state_queried": pending_push_queried, "bytes_formatted_by_trace_logger": crate::eng::LOGGED_BYTES.load(std::sync::atomic::Ordering::Relaxed), "mid_state_valid_actions": mid_actions, "mid_state_history_len": mid_hist, "capture_after_long_stretch_taken": capture_taken, "extra_steps_before_capture": extra_steps, "dropped_during_unwinding": unwound, "twin_history_len": twin_hist, "twin_probes": twin_probes, "twin_agreements_of_3_per_probe": twin_agreements, "step_back_states_queried": step_back_states})
+    json!({"vmstk_before_kb": before, "vmstk_mid_kb": mid_vm, "vmstk_after_newer_half_kb": after_newer, "vmstk_after_kb": after, "valid_actions": n_actions, "valid_actions_no_rep": n_norep, "terminal": term, "can_pass": cp, "has_move": hm, "printed_len": text_len, "hash": format!("{:#018x}", hash), "eq_mid": eq, "history_len": hl, "history_iter_count": hcount, "history_head": hhead.map(|h| format!("{:#018x}", h)), "tail_len": tail_len, "tail_iter_count": tail_iter_count, "tail_chain_len": tail_chain_len, "iterator_dropped_after": partial_iter, "mid_turn_query_rounds": mid_turn_queries, "pending_push_state_queried": pending_push_queried, "bytes_formatted_by_trace_logger": crate::eng::LOGGED_BYTES.load(std::sync::atomic::Ordering::Relaxed), "mid_state_valid_actions": mid_actions, "mid_state_history_len": mid_hist, "capture_after_long_stretch_taken": capture_taken, "extra_steps_before_capture": extra_steps, "dropped_during_unwinding": unwound, "twin_history_len": twin_hist, "twin_probes": twin_probes, "twin_agreements_of_3_per_probe": twin_agreements, "step_back_states_queried": step_back_states, "twin_continued_to_history_len": twin_later_hist, "step3_queries_on_continued_twin": later_queries})
 }
 
 /// A state whose history list has `n` entries, built with the public constructors (cheap way to
@@ -431,6 +486,8 @@ pub fn child(args: &[String]) -> i32 {
         let (g, mid, twin, mut info) = play_long(turns, seed)?;
         let ex = exercise(g, mid, twin, mode != "main");
         info["exercise"] = ex;
+        // everything of the long game is gone now; a second game on the same thread
+        info["second_game_step3_queries"] = json!(second_game(96));
         Ok(info)
     };
     let res = if mode == "main" {
@@ -565,6 +622,12 @@ pub fn c20(cfg: &Cfg) -> i32 {
             if j["exercise"]["step_back_states_queried"].as_u64().unwrap_or(0) > 0 {
                 sink.count("runs_with_step_back_states_queried");
             }
+            if j["exercise"]["step3_queries_on_continued_twin"].as_u64().unwrap_or(0) > 0 {
+                sink.count("runs_with_step3_query_on_continued_twin");
+            }
+            if j["second_game_step3_queries"].as_u64().unwrap_or(0) > 0 {
+                sink.count("runs_with_second_game_on_same_thread");
+            }
             if j["exercise"]["pending_push_state_queried"].as_bool() == Some(true) {
                 sink.count("runs_with_pending_push_state_queried");
             }
@@ -629,7 +692,7 @@ pub fn c20(cfg: &Cfg) -> i32 {
         evaluations_counter: "children_run",
         rule: "W13: child processes play L legal capture-free turns from an open position (steps from valid_actions_no_rep(), repetition legality kept by the harness' exact position set and spot-checked against valid_actions() every 10 000 turns; hash_history().len() must equal L+1), then query (action lists, result, can_pass, has_move, printing, hash, ==, history len/iter/head/tail), clone, take_action + pass, and drop the state while a clone of the state at turn L/2 is still alive, then query mid-turn states at steps 1-3 incl. a pass at step 3 and a state with a pending push (a `log` logger at Trace level that formats every record is installed), then make a capture (the engine starts a fresh history and lets go of the old one inside take_action), then query that older state and discard it - in the thread-mode children while the owning 2 MiB thread unwinds from a deliberate panic (Debug formatting is not exercised: the derived Debug of a linked list is recursive by construction and is not one of the queries the property lists). Observer 1: the whole run on a thread with the default 2 MiB stack must exit 0. Observer 2: on the main thread with an unlimited stack the growth of VmStk over the query/clone/drop block at L = 400 000 must not exceed the growth at L = 1 000 by 128 kB. Observer 3: 2-4 threads that are the only owners of one long history drop it at the same instant (spin barrier): children with 300 000-entry histories on 2 MiB threads must survive, and drop probes must show no growth of the stack span between 500 and 4 000 nodes. Observers 1-2 and the children of 3 run in the monitor profile and in plain release. distinct_nontrivial = distinct (L, seed, profile, observer) child runs that completed.".into(),
         assumptions: vec!["'for all lengths' is restated as L up to 4*10^5 (quick) / 2*10^6 (thorough) (quick: 4*10^5, thorough: 3*10^6) plus no measurable stack growth between L = 10^3 and L = 4*10^5".into(), "a child that dies for another reason (OOM, external signal) makes the run inconclusive".into()],
-        floors: vec![floor("survival_runs_held", 0, 0), floor("vmstk_comparisons", 1, 1), floor("simultaneous_probe_drop_rounds", 500, 5000), floor("concurrent_drop_runs_held", 0, 0), floor("runs_with_capture_after_long_stretch", 4, 8), floor("runs_with_last_owner_dropped_during_unwinding", 2, 4), floor("runs_with_pending_push_state_queried", 4, 8), floor("runs_with_step_back_states_queried", 4, 8), floor("twin_history_probes_eq_hash_hashset", 20, 40), floor("longest_history_reached", 400_001, 3_000_001)],
+        floors: vec![floor("survival_runs_held", 0, 0), floor("vmstk_comparisons", 1, 1), floor("simultaneous_probe_drop_rounds", 500, 5000), floor("concurrent_drop_runs_held", 0, 0), floor("runs_with_capture_after_long_stretch", 4, 8), floor("runs_with_last_owner_dropped_during_unwinding", 2, 4), floor("runs_with_pending_push_state_queried", 4, 8), floor("runs_with_step_back_states_queried", 4, 8), floor("runs_with_step3_query_on_continued_twin", 4, 8), floor("runs_with_second_game_on_same_thread", 4, 8), floor("twin_history_probes_eq_hash_hashset", 20, 40), floor("longest_history_reached", 400_001, 3_000_001)],
         level: "exploration",
         exhaustive: None,
         extra,
